@@ -397,12 +397,12 @@ struct PkGen {
     }
     if (g.chance(c.prop == "C02" ? 0.35 : 0.15)) {   // header sweep: a contiguous slice of one header's fields x every value kind
       p.recs[0].set("mode", "hdrsweep"); p.add("cfg").set("poison", (int64_t)g.below(5)).setu("pseed", g.next() % 100000);
-      int hsel = g.chance(0.8) ? 2 : (int)g.below(2); auto ll = get_link(r);
+      double hu = g.unit(); int hsel = hu < 0.75 ? 2 : hu < 0.92 ? 0 : 1; auto ll = get_link(r);
       size_t nf = hsel == 0 ? map_id_header(ll->hdr[0].data).size() : hsel == 1 ? map_comment_header(ll->hdr[1].data).size() : map_setup_header(ll->hdr[2].data, r.ch).size();
       size_t slice = thorough ? 120 : 40; size_t first = nf > slice ? (size_t)g.below(nf - slice + 1) : 0; uint64_t fb = g.next() % 100000;
-      if (hsel == 0 && nf >= 2 && g.chance(0.6)) {   // identification header: one pair of fields x every pair of value kinds, once stopping at the refusal and once going on regardless
+      if (hsel == 0 && nf >= 2 && g.chance(0.85)) {   // identification header: one pair of fields x every pair of value kinds, once stopping at the refusal and once going on regardless
         size_t a = (size_t)g.below(nf), b = (size_t)g.below(nf - 1); if (b >= a) b++;
-        for (int fv = 0; fv < 10; fv++) for (int fv2 = 0; fv2 < 10; fv2++) for (int go = 0; go < 2; go++) p.add("var").set("h", 0).setu("fi", a).set("fv", fv).setu("fi2", b).set("fv2", fv2).setu("fb", fb).set("go", go);
+        for (int fv = 0; fv < 10; fv++) for (int fv2 = 0; fv2 < 10; fv2++) for (int go = 0; go < 2; go++) p.add("var").set("h", 0).setu("fi", a).set("fv", fv).setu("fi2", b).set("fv2", fv2).setu("fb", fb).set("go", go).set("np", 16);
         return p; }
       bool goon = g.chance(0.3);
       for (size_t fi = first; fi < std::min(nf, first + slice); fi++) for (int fv = 0; fv < 10; fv++) { Rec &vr = p.add("var"); vr.set("h", hsel).setu("fi", fi).set("fv", fv).setu("fb", fb); if (goon) vr.set("go", 1); }
